@@ -931,6 +931,43 @@ func validatorRefusesOnlyOnFixedAttributes(c *Ctx, r *Report, rule string) {
 	sort.Strings(names)
 	r.Tables["merge_validator_functions"] = names
 	r.Floor(rule, "functions validating a merge candidate", len(vfns), 1)
+	checkCond := func(fn *Fn, cnd ast.Expr) {
+		nconds++
+		bad, via := "", ""
+		ast.Inspect(cnd, func(m ast.Node) bool {
+			call, ok := m.(*ast.CallExpr)
+			if !ok || bad != "" {
+				return true
+			}
+			cf := p.Callee(fn, call)
+			if cf == nil || !p.firstParty(cf.Pkg()) {
+				return true
+			}
+			sig, ok := cf.Type().(*types.Signature)
+			if !ok || sig.Recv() == nil || !isEntry(sig.Recv().Type()) {
+				return true
+			}
+			if cf.Name() == "Verify" {
+				return true // the signature check reads every signed field by definition
+			}
+			m2 := p.FuncOpt("entry", "Entry", cf.Name())
+			if m2 == nil {
+				return true
+			}
+			var fs []string
+			for f := range reads(m2, 0) {
+				fs = append(fs, f)
+			}
+			sort.Strings(fs)
+			if len(fs) > 0 {
+				bad, via = fs[0], cf.Name()
+			}
+			return true
+		})
+		r.Check(bad == "", rule, r.Key(rule, fn, "condition", ""), cnd.Pos(),
+			"the condition reads nothing of the candidate that Append leaves to the caller or to the history",
+			fmt.Sprintf("the merge validation branches on `%s`, which reads the candidate's %s through %s — %s, so entries made by Append are refused (and with them every merge that would bring them)", types.ExprString(cnd), bad, via, callerControlledEntryFields[bad]))
+	}
 	for _, name := range names {
 		var fn *Fn
 		for f := range vfns {
@@ -939,45 +976,23 @@ func validatorRefusesOnlyOnFixedAttributes(c *Ctx, r *Report, rule string) {
 			}
 		}
 		walkNoLit(fn.Body, func(n ast.Node) bool {
-			is, ok := n.(*ast.IfStmt)
-			if !ok {
+			var conds []ast.Expr
+			switch x := n.(type) {
+			case *ast.IfStmt:
+				conds = []ast.Expr{x.Cond}
+			case *ast.SwitchStmt:
+				if x.Tag != nil {
+					conds = append(conds, x.Tag)
+				}
+				for _, cc := range x.Body.List {
+					conds = append(conds, cc.(*ast.CaseClause).List...)
+				}
+			default:
 				return true
 			}
-			nconds++
-			bad, via := "", ""
-			ast.Inspect(is.Cond, func(m ast.Node) bool {
-				call, ok := m.(*ast.CallExpr)
-				if !ok || bad != "" {
-					return true
-				}
-				cf := p.Callee(fn, call)
-				if cf == nil || !p.firstParty(cf.Pkg()) {
-					return true
-				}
-				sig, ok := cf.Type().(*types.Signature)
-				if !ok || sig.Recv() == nil || !isEntry(sig.Recv().Type()) {
-					return true
-				}
-				if cf.Name() == "Verify" {
-					return true // the signature check reads every signed field by definition
-				}
-				m2 := p.FuncOpt("entry", "Entry", cf.Name())
-				if m2 == nil {
-					return true
-				}
-				var fs []string
-				for f := range reads(m2, 0) {
-					fs = append(fs, f)
-				}
-				sort.Strings(fs)
-				if len(fs) > 0 {
-					bad, via = fs[0], cf.Name()
-				}
-				return true
-			})
-			r.Check(bad == "", rule, r.Key(rule, fn, "condition", ""), is.Cond.Pos(),
-				"the condition reads nothing of the candidate that Append leaves to the caller or to the history",
-				fmt.Sprintf("the merge validation branches on `%s`, which reads the candidate's %s through %s — %s, so entries made by Append are refused (and with them every merge that would bring them)", types.ExprString(is.Cond), bad, via, callerControlledEntryFields[bad]))
+			for _, cnd := range conds {
+				checkCond(fn, cnd)
+			}
 			return true
 		})
 	}
